@@ -173,4 +173,18 @@ theorem xyY_self_decodable (x y : BitVec 16) (yb : BitVec 8) (cv bv : Bool) :
 example : encode .scene17 (.u8 200) = some [0, 63] := by decide
 example : encode .time (.time 9 30 70 70) = some [0, 0, 0, 0] := by decide
 
+/-! ### the clamps of the registered types, read from the source on every run -/
+
+def litLe (a b : Lit) : Bool := a.num * b.den ≤ b.num * a.den
+
+/-- every registered 16-bit-float type saturates at the very bound it compares with, and both
+    bounds lie inside what the type's own decoder accepts: an out-of-range value is encoded as an
+    encoding the same type decodes (regenerated table, all registered types) -/
+theorem f16_clamps_within_decoder_range :
+    Knx.Gen.shapes.all (fun p =>
+      match p.2 with
+      | .f16 lo loVal hi hiVal unLo unHi =>
+        lo == loVal && hi == hiVal && litLe unLo loVal && litLe hiVal unHi && litLe lo hi
+      | _ => true) = true := by decide +kernel
+
 end Props.C07
